@@ -512,7 +512,12 @@ impl Serialize for Extensions {
             ExtensionsVariantV1::Causal(extensions) => {
                 seq.serialize_element(&extensions.log_id)?;
                 seq.serialize_element(&extensions.timestamp)?;
-                seq.serialize_element(&extensions.previous)?;
+
+                // A set has no defined iteration order, sort the hashes to make the encoding (and
+                // with it the operation id and signature) a deterministic function of the value.
+                let mut previous: Vec<&Hash> = extensions.previous.iter().collect();
+                previous.sort();
+                seq.serialize_element(&previous)?;
             }
         }
 
